@@ -99,6 +99,14 @@ def burst(n, per=1, code="bAAA", curt=False, dup=False, ki=None):
     return ("e2e", code, curt, size, code in A.SIGNED, ki, memos, sched, [], "rend")
 
 
+def nontext(b):
+    try:
+        bytes(b).decode()
+        return False
+    except UnicodeDecodeError:
+        return True
+
+
 def simulate(case, counts, f32, f33):
     """spec-level receiver: which (memo index, source) reach the inbox at each service call.
     f32: a signed non-zeroth gram is dropped unless the zeroth gram of its memo is held;  f33: a memo that completes again is delivered again.
@@ -156,7 +164,10 @@ def simulate(case, counts, f32, f33):
             h.add(g)
         for mi in list(held):
             if len(held[mi]) == counts[mi]:
-                pend.append((mi, first_src[mi]))
+                if nontext(memos[mi][0]):
+                    pass                    # complete but not text: dropped when fused, nothing is delivered for it — and nothing else in its place
+                else:
+                    pend.append((mi, first_src[mi]))
                 done.add(mi)
                 del held[mi]
         if kind == "once":
@@ -244,6 +255,9 @@ class C20(core.Check):
             ("e2e", "bAAA", False, 38, False, None, two, [[(0, 0), (0, 1), (1, 0), (1, 1), (1, 2), (1, 3)]]),         # memo 0 misses gram 2
             ("e2e", "bAAE", False, 33, False, None, one, [[(0, 5), (0, 4), (0, 3), (0, 2), (0, 1), (0, 0)]]),
             ("e2e", "bAAA", False, 38, False, None, two[:1], [[(0, 1), (0, 0, 5), (0, 1, 6), (0, 2, 4)]]),          # the source is that of the first gram
+            # a complete memo that is NOT text fuses right after a good one in the same pass: it is dropped, the good one delivered once under its own source
+            ("e2e", "bAAA", False, 38, False, None, [(b"good memo text", 1, 1), (b"bad \xff\xfe bytes!", 2, 2)], [("all", [(0, 0), (1, 0), (0, 1), (0, 2), (1, 1), (1, 2), (1, 3)])], [], "rend"),
+            ("e2e", "bAAC", True, 140, True, 0, [(b"good", 1, 1), (b"\xc3(", 2, 3), (b"later good", 3, 2)], [("all", [(0, 0), (1, 0)]), ("once", [(2, 0)]), ("all", [])], [], "all"),
             # configuration histories (seeded change C20-m3): size chosen first, then the code / encoding switched; the setter must re-clamp
             ("e2e", "bAAA", False, 150, True, 0, [(b"m" * 190, 1, 1)], [[(0, 0), (0, 1), (0, 2), (0, 3), (0, 4), (0, 5), (0, 6), (0, 7)]], [("code", "bAAC")]),
             ("e2e", "bAAC", True, 140, True, 0, [(b"m" * 190, 1, 1)], [[(0, 0), (0, 3), (0, 2), (0, 1), (0, 4), (0, 5), (0, 6), (0, 7)]], [("curt", False)]),
@@ -342,7 +356,11 @@ class C20(core.Check):
                 if size < 100 and nbz >= 1 and (ln - zbz) // max(nbz, 1) > 60:
                     ln = zbz + nbz * rng.randrange(1, 40)
                 ln = min(ln, 2048)
-                memos.append((_text(rng, max(1, ln)) if ln else b"", rng.randrange(1, 10 ** 6), rng.randrange(1, 4)))
+                tx_ = _text(rng, max(1, ln)) if ln else b""
+                if tx_ and rng.random() < 0.1:       # a payload that is not text (a sender that bypasses str)
+                    k_ = rng.randrange(len(tx_) + 1)
+                    tx_ = tx_[:k_] + rng.choice([b"\xff", b"\xc3(", b"\xed\xa0\x80", b"\x80"]) + tx_[k_:]
+                memos.append((tx_, rng.randrange(1, 10 ** 6), rng.randrange(1, 4)))
             # distinct mids
             seeds = set()
             memos = [(t, ms if ms not in seeds and not seeds.add(ms) else ms + 10 ** 6 + j, s) for j, (t, ms, s) in enumerate(memos)]
